@@ -109,6 +109,13 @@ ArgSeqs(t) ==    \* argument lists for extend / slice assignment
 \* (removal by enumerator NAME is not documented and not modelled)
 RemoveArgs(t) == IF BaseKind(t) = "enum" THEN {"n" \o ToS(j) : j \in 1..EnumN(t)} ELSE Good(t)
 
+\* element type t is a struct whose first member is a plain, settable scalar
+KwMember(t) ==
+    /\ IsStructRef(env, t)
+    /\ LET ms == env[Base(env, t).i].ms IN
+         ms # <<>> /\ ms[1].f = "plain" /\ ~IsComposite(ms[1].t) /\ ms[1].t.k # "byte" /\ ~IsSizer(ms, 1)
+KwType(t) == env[Base(env, t).i].ms[1].t
+
 \* operations offered by an array member m holding n elements
 ArrayOps(path, m, n) ==
     LET t == m.t
@@ -137,6 +144,10 @@ ArrayOps(path, m, n) ==
         \cup {Op(path, "delslice", 0, lo, hi, 0, "", <<>>) : lo \in SliceBounds(n), hi \in SliceBounds(n)}
         \cup {Op(path, "extendself", 0, 0, 0, 0, "", <<>>)}   \* x.extend(x) / x.extend(list(x)): copies of its own elements
         \cup {Op(path, "extendbad", 0, 0, 0, 0, "", <<>>)}    \* extend([own first element if any, an object of another class])
+        \* add(<first member> = x) when the element is a struct whose first member is a plain scalar
+        \cup (IF KwMember(t) THEN {Op(path, "addkw", 0, 0, 0, 0, x, <<>>) : x \in {CHOOSE g \in Good(KwType(t)) : TRUE}
+                                                                              \cup {CHOOSE w \in Bad(KwType(t)) \ {"none"} : TRUE}}
+              ELSE {})
         \cup {Op(path, "extendother", 0, 0, 0, 0, "", <<>>)}  \* extend with the same array of the OTHER message
 
 RECURSIVE OpsAt(_, _, _)
@@ -300,6 +311,10 @@ ArrayOp(m, v, op, other) ==
       \* a sequence containing an element of another class is refused as a whole
       \* (TypeError from copy_from, or the limit check): nothing is appended
       [] op.op = "extendbad" -> {Res("type", v), Res("reject", v)}
+      \* the element is appended only if the attribute value is accepted
+      [] op.op = "addkw" ->
+            IF ~fits(n + 1) \/ op.arg \notin Good(KwType(t)) THEN {Res("reject", v)}
+            ELSE {Res("ok", put(Append(s, [DefVal(t) EXCEPT !.q[1] = Sc(Canon(KwType(t), op.arg))])))}
 
 (* ---- applying an operation at a path ------------------------------------- *)
 RECURSIVE ApplyAt(_, _, _, _, _)
